@@ -133,6 +133,29 @@ func (p c10) Gen(r *simhook.Rand, tier string, idx int) harness.Scenario {
 	if r.Chance(1, 2) {
 		n = 1 + r.Intn(3)
 	}
+	if r.Chance(1, 10) {
+		// class "long-lived": one decoder sees hundreds of small messages - many of them null arrays, empty arrays and
+		// arrays holding null arrays - before ordinary ones; whatever state a decoder keeps between messages (depth
+		// counters, buffer windows) must come back to where it was after each of them
+		sc.Class = "long-lived"
+		for i := 0; i < 40+r.Intn(1200); i++ {
+			var m string
+			switch r.Intn(6) {
+			case 0, 1:
+				m = "*-1\r\n"
+			case 2:
+				m = "*2\r\n*-1\r\n:1\r\n"
+			case 3:
+				m = "*0\r\n"
+			case 4:
+				m = ":1\r\n"
+			default:
+				m = "*1\r\n*1\r\n$-1\r\n"
+			}
+			sc.Stream = append(sc.Stream, world.Bin(m))
+			sc.Inline = append(sc.Inline, false)
+		}
+	}
 	for i := 0; i < n; i++ {
 		if r.Chance(1, 8) {
 			// inline command: words separated by single or multiple spaces
